@@ -91,17 +91,21 @@ func (fs DirFs) AtomicCreate(dir, fname string, data []byte) {
 		panic(err)
 	}
 	defer unix.Close(fd)
+	verifHook("atomiccreate.opened", dir, fname, 0)
 	for len(data) > 0 {
+		verifHook("atomiccreate.write", dir, fname, 0)
 		n, err := unix.Write(fd, data)
 		if err != nil {
 			panic(err)
 		}
 		data = data[n:]
 	}
+	verifHook("atomiccreate.written", dir, fname, 0)
 	err = unix.Fsync(fd)
 	if err != nil {
 		panic(err)
 	}
+	verifHook("atomiccreate.synced", dir, fname, 0)
 	err = unix.Renameat(fs.rootFd, tmpFile, fs.rootFd, path.Join(dir, fname))
 	if err != nil {
 		panic(err)
